@@ -29,7 +29,7 @@ REAL_VS_STUB = {'real': ['kyupy.logic_sim.LogicSim (s_to_c, c_prop incl. all thr
                 'stub': ['none: the oracle is the same simulator class run callback-free on the cut circuit (no second multi-valued algebra)']}
 ASSUMPTIONS = ['lanes are independent (C06) - the oracle is evaluated per group of lanes that share the same set of injections',
                'an evaluated signal is a line whose driver is a port/state element, a gate, or a fork that is not stripped in this configuration']
-EXPECTED_PROBES = ['plain_repropagation_after_injection', 'injection_changed_result', 'injection_upstream_of_another', 'untouched_callback_run', 'cycle_api', 'multi_cycle', 'lanes_not_multiple_of_8']
+EXPECTED_PROBES = ['callback_raised_mid_propagation', 'plain_repropagation_after_injection', 'injection_changed_result', 'injection_upstream_of_another', 'untouched_callback_run', 'cycle_api', 'multi_cycle', 'lanes_not_multiple_of_8']
 
 
 def gen(rng, tier, i):
@@ -48,7 +48,8 @@ def gen(rng, tier, i):
     return {'script': script, 'm': m, 'sims': sims, 'cycles': cycles, 'vals': [rng.randrange(8) for _ in range(rng.randint(3, 23))],
             'knobs': {'c_reuse': rng.random() < 0.4, 'strip_forks': rng.random() < 0.4}, 'api': rng.choice(['explicit', 'cycle', 'cycle']), 'inj': inj,
             'cb_style': rng.choice(['function', 'function', 'falsy_object', 'partial', 'method']), 'call_form': rng.choice(['keyword', 'positional']),
-            'cb_return': rng.choice(['none', 'none', 'none', 'true', 'zero', 'line', 'array']), 'sims_type': rng.choice(['int', 'int', 'int', 'int64', 'int32'])}
+            'cb_return': rng.choice(['none', 'none', 'none', 'true', 'zero', 'line', 'array']), 'sims_type': rng.choice(['int', 'int', 'int', 'int64', 'int32']),
+            'raise_at': rng.choice([None, None, None, 0, 1, 3, 7])}
 
 
 def evaluated_lines(circuit, strip):
@@ -208,6 +209,20 @@ def execute(case):
         if not np.array_equal(sim.s[1], ref_out[0]):
             res.violate('injection-persists-on-object', f'm={m}: s_to_c(); c_prop(inject_cb); c_prop(); c_to_s() on one simulator object differs from the fault-free reference (the plain propagation did not evaluate everything anew)')
             return res
+    # a callback that raises in mid-propagation (a fault simulator giving up on a pattern): the object stays usable
+    if case.get('raise_at') is not None:
+        class _Stop(Exception): pass
+        seen_calls = [0]
+
+        def raiser(line, view):
+            seen_calls[0] += 1
+            if seen_calls[0] > case['raise_at']: raise _Stop()
+        lsim.assign(sim, mva)
+        try:
+            sim.s_to_c()
+            sim.c_prop(inject_cb=raiser)
+        except _Stop:
+            res.probe('callback_raised_mid_propagation')
     # fault-simulation loop: the SAME simulator object, same patterns assigned again, no callback: the fault-free reference
     lsim.assign(sim, mva)
     again_in, again_out = drive(sim, None, case['api'])
